@@ -46,6 +46,7 @@ type Clause struct {
 	// assigns: list of expressions, or nothing
 	Assigns []ast.Expr
 	Nothing bool
+	Like    *ast.CallExpr // like: callee contract instantiated with these arguments
 }
 
 type Contract struct {
@@ -79,7 +80,8 @@ type Fact struct {
 	Expr ast.Expr
 	Line int
 	// lemma hints: universally quantified variables: "forall x T, y T :: E"
-	Vars []*ast.Field
+	Vars   []*ast.Field
+	Manual bool
 }
 
 type SpecFile struct {
@@ -100,6 +102,10 @@ func (c *Contract) clauses(kind string) []*Clause {
 		}
 	}
 	return out
+}
+
+func (c *Contract) peels(n int) bool {
+	return len(c.loopClauses("peel", n)) > 0
 }
 
 func (c *Contract) loopClauses(kind string, n int) []*Clause {
@@ -326,6 +332,27 @@ func parseClause(c *Contract, t string, line int) error {
 			return fmt.Errorf("%s: %v", word, err)
 		}
 		c.Clauses = append(c.Clauses, &Clause{Kind: word, Tags: tags, Text: body, Expr: e, Line: line})
+	case "like":
+		// like[tags] Callee(args...) when cond
+		tags, body := parseTags(rest)
+		cond := "true"
+		if i := indexTopStr(body, " when "); i >= 0 {
+			cond = strings.TrimSpace(body[i+6:])
+			body = strings.TrimSpace(body[:i])
+		}
+		ce, err := parseSpecExpr(body)
+		if err != nil {
+			return fmt.Errorf("like: %v", err)
+		}
+		call, ok := ce.(*ast.CallExpr)
+		if !ok {
+			return fmt.Errorf("like: expected Callee(args...)")
+		}
+		ccond, err := parseSpecExpr(cond)
+		if err != nil {
+			return fmt.Errorf("like: %v", err)
+		}
+		c.Clauses = append(c.Clauses, &Clause{Kind: "like", Tags: tags, Text: rest, Expr: ccond, Like: call, Line: line})
 	case "let":
 		i := strings.Index(rest, ":=")
 		if i < 0 {
@@ -354,6 +381,14 @@ func parseClause(c *Contract, t string, line int) error {
 		c.Clauses = append(c.Clauses, cl)
 	case "loop":
 		f := strings.Fields(rest)
+		if len(f) == 2 && f[1] == "peel" {
+			n, err := strconv.Atoi(f[0])
+			if err != nil {
+				return fmt.Errorf("bad loop ordinal %q", f[0])
+			}
+			c.Clauses = append(c.Clauses, &Clause{Kind: "peel", Loop: n, Line: line})
+			return nil
+		}
 		if len(f) < 3 {
 			return fmt.Errorf("bad loop clause %q", t)
 		}
@@ -420,13 +455,19 @@ func parseFact(t string, line int) (*Fact, error) {
 		rest = strings.TrimPrefix(t, "lemma")
 	}
 	tags, rest := parseTags(strings.TrimSpace(rest))
+	manual := false
+	if strings.HasPrefix(rest, "manual ") {
+		// not asserted globally; instantiated by use(name, terms...)
+		manual = true
+		rest = strings.TrimSpace(strings.TrimPrefix(rest, "manual "))
+	}
 	i := strings.Index(rest, ":")
 	if i < 0 {
 		return nil, fmt.Errorf("fact without name")
 	}
 	name := strings.TrimSpace(rest[:i])
 	body := strings.TrimSpace(rest[i+1:])
-	fa := &Fact{Kind: kind, Name: name, Tags: tags, Text: body, Line: line}
+	fa := &Fact{Kind: kind, Name: name, Tags: tags, Text: body, Line: line, Manual: manual}
 	// optional "forall x T, y T :: E"
 	if strings.HasPrefix(body, "forall ") {
 		j := strings.Index(body, "::")
